@@ -16,6 +16,7 @@ type Profile struct {
 	MaxTxns    int
 	SameRows   bool // concentrate work on few rows / slots (reuse after abort)
 	Checkpoint int  // percentage of transactions followed by a forced checkpoint
+	Reopen     int  // percentage of transactions followed by a restart (crash or clean) inside the history
 }
 
 var T1 = dbh.TableDef{Name: "t", Cols: []dbh.Col{{Name: "id", T: "i", Idx: dbh.IdxSkip}, {Name: "v", T: "s", Idx: dbh.IdxNone}, {Name: "n", T: "i", Idx: dbh.IdxSkip}}}
@@ -164,6 +165,9 @@ func GenHistory(t *rapid.T, p Profile) *History {
 			g.live = local
 		}
 		spec.Checkpoint = rapid.IntRange(0, 99).Draw(t, "cp") < p.Checkpoint
+		if p.Reopen > 0 && spec.End != "open" && rapid.IntRange(0, 99).Draw(t, "reopen") < p.Reopen {
+			spec.Reopen = rapid.SampledFrom([]string{"crash", "crash", "clean"}).Draw(t, "reopenkind")
+		}
 		h.Txns = append(h.Txns, spec)
 	}
 	return h
